@@ -11,9 +11,13 @@ MANIFEST = {
             "array, packed word split at arbitrary byte boundaries into 2-6 fields; arbitrary slot numbers up to 2^255 in arbitrary "
             "order; read / write / both from separate dispatch branches; SHL- and MUL-style shift-in) are compiled to compiler-style "
             "bytecode, analysed by the real pipeline, and the returned layout is compared INSIDE Coq with the ground truth (slot, kind, "
-            "mapping depth, 160-bit keys/values, bit offsets and widths). The per-stage theorems for arbitrary depth/slot (lifting of "
-            "mapping nests, dynamic arrays, sub-word regions, packed fields) live in the lifting-pass developments; the composition "
-            "through inference and unification is not a theorem yet (partial).",
+            "mapping depth, 160-bit keys/values, bit offsets and widths). Per-stage theorems for ALL trees are proved over "
+            "models of the nine lifting passes and of abi_type_for that are tied to the real code on every run (translator pins + "
+            "pass-by-pass correspondence): lift_mapping_nest (every depth >= 1, arbitrary keys, any slot outside the hash table), "
+            "lift_dyn_array, recognise_hashed_slot, get_region_spec (every contiguous mask), address_mask / subword_mask_lift, "
+            "lift_packed_fields (any number of fields at any ordered disjoint positions, any or-tree shape, MUL/SHL shift-in), "
+            "lift_packed_rmw, abi_word_shape / abi_mapping_shape / abi_dynarray_shape. The composition through inference and "
+            "unification is not a theorem (partial): it is what the ground-truth search decides.",
     "note": "Trusted: Coq kernel for the comparison predicate; the idiom compiler (tools/gen.py) defines what 'standard idiom' means here; "
             "harness.",
     "technique": "ground-truth idiom compiler + layout predicate evaluated inside Coq on the implementation's output; stage lemmas in Coq "
